@@ -69,11 +69,12 @@ ClauseCalls(f) ==
     \cup (IF kind \in {"update", "delete", "insertvalues"} THEN {[m |-> "returning", terms |-> <<f>>]} ELSE {})
     \cup (IF kind = "insertvalues" THEN {[m |-> "columnsf", f |-> f], [m |-> "where", crit |-> Cmp(f, Num("1"))],
                                          [m |-> "do_update", col |-> "b", val |-> f]} ELSE {})
+Outside == {"T5", "Q6", "C7"}
 NameCalls == IF kind = "insertvalues" THEN {[m |-> "columns", names |-> <<"a", "b">>], [m |-> "on_conflict", names |-> <<"a">>], [m |-> "do_nothing"]}
              ELSE IF kind = "insertselect" THEN {[m |-> "columns", names |-> <<"a">>]} ELSE {}
 Clause == /\ stage >= 3 /\ stage < 3 + MaxClauses
-          /\ \/ \E s \in scope \cup {"T5"}, col \in {"a", "b"} : \E c \in ClauseCalls(Fld(s, col)) :
-                    /\ (s = "T5" /\ "T5" \notin scope => c.m = "where")       \* a foreign table only in WHERE
+          /\ \/ \E s \in scope \cup Outside, col \in {"a", "b"} : \E c \in ClauseCalls(Fld(s, col)) :
+                    /\ (s \in Outside /\ s \notin scope => c.m = "where")       \* an outside source (table, aliased subquery, CTE reference) only in WHERE
                     /\ (c.m \in {"returning", "do_update"} => s \in scope)
                     /\ (c.m \in {"setf", "columnsf"} => s = hist[1].src)                \* name positions take columns of the statement's own table
                     /\ Do(c)
